@@ -4,6 +4,7 @@
 pub mod c14;
 pub mod c19;
 pub mod px;
+pub mod c18;
 
 pub type Suite = fn(&[i128]) -> Vec<i128>;
 
@@ -14,6 +15,7 @@ pub fn suites() -> Vec<(&'static str, Suite)> {
         ("c14_transform", c14::run_transform as Suite),
         ("c19", c19::run as Suite),
         ("px", px::run as Suite),
+        ("c18", c18::run as Suite),
     ]
 }
 
